@@ -58,9 +58,15 @@ def handle_models():
             (r'SendStream::stopped$', m_stopped), (r'SendStream::finish$', m_finish), (r'future::poll_fn$', m_poll_fn)] + CONNECTION_MODELS
 
 
+def stream_handler_fn(prog):
+    """the per-stream request handler body: `do_handle` at the pinned commit; after a rename, the outermost fallible async
+    method of BiStreamRequestHandler that reaches wire::read_request"""
+    return e2.find_role_method(prog, 'BiStreamRequestHandler', ['do_handle'], r'(^|::)read_request$', ret_re=r'Poll<(std::result::)?Result<')
+
+
 def run_do_handle():
-    ex = e2.executor('anemo', handle_models(), max_depth=1)
-    parent = find_method(ex.prog, 'BiStreamRequestHandler', 'do_handle')
+    ex = e2.executor('anemo', handle_models(), max_depth=3)
+    parent = stream_handler_fn(ex.prog)
     fn = find_closure(ex.prog, parent, [0])
     p, args = coroutine_start(ex, fn)
     res = ex.run(fn, args, p)
@@ -154,11 +160,13 @@ def ob_select_race(report, prop):
             q.events.append(Event('race-poll', which, (), 'pending'))
             k(q, Agg('Poll', 'Pending', ()))
         ex = e2.executor('anemo', [(r'thread_rng_n$', m_rng), (r' as Future>::poll$', m_poll)], max_depth=2, unroll=3)
-        parent = find_method(ex.prog, 'BiStreamRequestHandler', 'do_handle')
+        parent = stream_handler_fn(ex.prog)
         # the poll closure of the `tokio::select!` expansion: the (only) closure under do_handle that draws the random start index
         cands = e2.find_closures_calling(ex.prog, parent, r'thread_rng_n$')
+        if not cands:       # the race may live in a helper method of the same impl
+            cands = [c for m in e2.methods_of(ex.prog, 'BiStreamRequestHandler').values() for c in e2.find_closures_calling(ex.prog, m, r'thread_rng_n$')]
         if len(cands) != 1:
-            raise NotFound(f'select! poll closure under do_handle: {len(cands)} candidates')
+            raise NotFound(f'select! poll closure of the per-stream handler: {len(cands)} candidates')
         fn = cands[0]
         p = Path()
         p.mem[('H', 'disabled', 'u8')] = z3.BitVecVal(0, 8)
